@@ -546,7 +546,8 @@ def generate_iso():
     offers besides a day is `$`, which the look-ahead forbids; with a day present the position is not at `$`)."""
     import re, re._parser as P, inspect
     import regex_tr
-    failclosed.check_all(FAILCLOSED['generate'][:1])      # timeutils.iso8601 is the real module
+    failclosed.check({'src': 'oslo_utils/timeutils.py', 'mod': 'oslo_utils.timeutils', 'functions': {'parse_isotime': _NOD},
+                      'imports': {'iso8601': 'iso8601'}})      # timeutils.iso8601 is the real module
     import iso8601
     lib = iso8601.iso8601
     pat = getattr(lib, 'ISO8601_REGEX', None)
